@@ -1000,6 +1000,160 @@ var orderTargets = []orderTarget{
 	{"internal/app", "runICEQUICTransfer", "authenticateTransport", "NewMultiConn", "sender_auth_before_multiconn"},
 	{"internal/app", "runTransfer", "authenticateTransport", "RecvManifestMultiStream", "receiver_auth_before_recv"},
 	{"internal/app", "runTransfer", "authenticateTransport", "NewMultiConn", "receiver_auth_before_multiconn"},
+	// "#ok": the second site must lie on the err == nil branch of the test of the first call's result
+	{"internal/app", "runICEQUICTransfer", "authenticateTransport#ok", "SendManifestMultiStream", "sender_auth_ok_before_send"},
+	{"internal/app", "runICEQUICTransfer", "authenticateTransport#ok", "dialExtraConns", "sender_auth_ok_before_extra"},
+	{"internal/app", "runTransfer", "authenticateTransport#ok", "RecvManifestMultiStream", "receiver_auth_ok_before_recv"},
+	{"internal/app", "runTransfer", "authenticateTransport#ok", "acceptExtraConns", "receiver_auth_ok_before_extra"},
+	{"internal/app", "dialExtraConns", "authenticateTransport#ok", "append", "sender_extra_auth_ok_before_keep"},
+	{"internal/app", "acceptExtraConns", "authenticateTransport#ok", "append", "receiver_extra_auth_ok_before_keep"},
+}
+
+// okBranch: the block entered when the error returned by the call at x is nil (nil if the result is not tested
+// by an `if err != nil` / `if err == nil` that ends x's block).
+func okBranch(x callSite) *ssa.BasicBlock {
+	call, ok := x.blk.Instrs[x.idx].(*ssa.Call)
+	if !ok {
+		return nil
+	}
+	last := x.blk.Instrs[len(x.blk.Instrs)-1]
+	iff, ok := last.(*ssa.If)
+	if !ok {
+		return nil
+	}
+	bin, ok := iff.Cond.(*ssa.BinOp)
+	if !ok {
+		return nil
+	}
+	isNil := func(v ssa.Value) bool { c, ok := v.(*ssa.Const); return ok && c.IsNil() }
+	var other ssa.Value
+	if bin.X == ssa.Value(call) {
+		other = bin.Y
+	} else if bin.Y == ssa.Value(call) {
+		other = bin.X
+	}
+	if other == nil || !isNil(other) {
+		return nil
+	}
+	switch bin.Op {
+	case token.NEQ:
+		return x.blk.Succs[1]
+	case token.EQL:
+		return x.blk.Succs[0]
+	}
+	return nil
+}
+
+// resolveFn: the function a call value denotes, looking through a local variable that is assigned one closure once.
+func resolveFn(v ssa.Value) *ssa.Function {
+	switch f := v.(type) {
+	case *ssa.Function:
+		return f
+	case *ssa.MakeClosure:
+		fn, _ := f.Fn.(*ssa.Function)
+		return fn
+	case *ssa.UnOp:
+		if f.Op != token.MUL {
+			return nil
+		}
+		var cell ssa.Value = f.X
+		var stores []*ssa.Store
+		switch c := cell.(type) {
+		case *ssa.Alloc:
+			for _, r := range *c.Referrers() {
+				if st, ok := r.(*ssa.Store); ok && st.Addr == cell {
+					stores = append(stores, st)
+				}
+			}
+		case *ssa.FreeVar:
+			return nil
+		}
+		if len(stores) == 1 {
+			return resolveFn(stores[0].Val)
+		}
+	}
+	return nil
+}
+
+// noReturnAt: index of the first instruction of b after which control never continues (os.Exit, panic, log.Fatal*,
+// or a call of a function all of whose returns come after such a call); -1 if none.
+func noReturnAt(b *ssa.BasicBlock, depth int) int {
+	for i, ins := range b.Instrs {
+		switch x := ins.(type) {
+		case *ssa.Panic:
+			return i
+		case *ssa.Call:
+			if fn := resolveFn(x.Call.Value); fn != nil {
+				if fn.Pkg != nil && fn.Pkg.Pkg.Path() == "os" && fn.Name() == "Exit" {
+					return i
+				}
+				if fn.Pkg != nil && fn.Pkg.Pkg.Path() == "log" && strings.HasPrefix(fn.Name(), "Fatal") {
+					return i
+				}
+				if depth < 2 && len(fn.Blocks) > 0 && neverReturns(fn, depth+1) {
+					return i
+				}
+			}
+		}
+	}
+	return -1
+}
+
+func neverReturns(fn *ssa.Function, depth int) bool {
+	// forward reachability from the entry, stopping at no-return instructions; no Return may be reached
+	seen := map[*ssa.BasicBlock]bool{}
+	work := []*ssa.BasicBlock{fn.Blocks[0]}
+	for len(work) > 0 {
+		b := work[len(work)-1]
+		work = work[:len(work)-1]
+		if seen[b] {
+			continue
+		}
+		seen[b] = true
+		if noReturnAt(b, depth) >= 0 {
+			continue
+		}
+		if _, ok := b.Instrs[len(b.Instrs)-1].(*ssa.Return); ok {
+			return false
+		}
+		work = append(work, b.Succs...)
+	}
+	return true
+}
+
+// onlyViaOK: every path from the function entry to site y takes the err == nil edge out of x's block
+// (paths ending in a no-return call are not paths to y).
+func onlyViaOK(x, y callSite) bool {
+	ok := okBranch(x)
+	if ok == nil || x.fn != y.fn {
+		return false
+	}
+	seen := map[*ssa.BasicBlock]bool{}
+	work := []*ssa.BasicBlock{x.fn.Blocks[0]}
+	for len(work) > 0 {
+		b := work[len(work)-1]
+		work = work[:len(work)-1]
+		if seen[b] {
+			continue
+		}
+		seen[b] = true
+		nr := noReturnAt(b, 0)
+		if b == y.blk && (nr < 0 || y.idx < nr) {
+			if !(b == x.blk && false) {
+				return false // reached y without the ok edge
+			}
+		}
+		if nr >= 0 {
+			continue
+		}
+		for _, sc := range b.Succs {
+			if b == x.blk && sc == ok {
+				continue // the ok edge is the one we leave out
+			}
+			work = append(work, sc)
+		}
+	}
+	return true
 }
 
 func calleeName(c *ssa.CallCommon) string {
@@ -1007,6 +1161,8 @@ func calleeName(c *ssa.CallCommon) string {
 		return c.Method.Name()
 	}
 	switch f := c.Value.(type) {
+	case *ssa.Builtin:
+		return f.Name()
 	case *ssa.Function:
 		return f.Name()
 	case *ssa.MakeClosure:
@@ -1190,7 +1346,9 @@ func (w *world) genOrder() string {
 		sp := w.spkgs[t.pkg]
 		fns := allFuncsNamed(sp, w.prog, t.fn)
 		snd := strings.SplitN(t.snd, "#", 2)[0]
-		as := findCalls(fns, t.first)
+		first := strings.SplitN(t.first, "#", 2)[0]
+		needOK := strings.HasSuffix(t.first, "#ok")
+		as := findCalls(fns, first)
 		bs := findCalls(fns, snd)
 		if snd == "@sidecarMark" {
 			tg := map[string]bool{"MarkCompleteIfUnset": true, "MarkComplete": true}
@@ -1212,11 +1370,21 @@ func (w *world) genOrder() string {
 			}
 			total++
 			for _, x := range as {
-				if dominates(x, y) {
+				if needOK {
+					if onlyViaOK(x, y) {
+						dom++
+						break
+					}
+				} else if dominates(x, y) {
 					dom++
 					break
 				}
 			}
+		}
+		if needOK {
+			fmt.Fprintf(&b, "/-- in %s.%s: every call of %s lies on the err == nil branch after a call of %s (sites found: %d first, %d second) -/\n", t.pkg, t.fn, snd, first, len(as), total)
+			fmt.Fprintf(&b, "def %s : Nat × Nat × Nat := (%d, %d, %d)\n\n", t.leanName, len(as), total, dom)
+			continue
 		}
 		fmt.Fprintf(&b, "/-- in %s.%s: every call of %s is dominated by a call of %s (sites found: %d first, %d second) -/\n", t.pkg, t.fn, snd, t.first, len(as), total)
 		fmt.Fprintf(&b, "def %s : Nat × Nat × Nat := (%d, %d, %d)\n\n", t.leanName, len(as), total, dom)
